@@ -5,6 +5,7 @@ From Coq Require Import Lia Sorted.
 From SV Require Import Spec.QuietSpec Proofs.QuietProofs.
 From SV Require Import Model.Sliding Proofs.TumblingProofs Proofs.TumblingComplete Proofs.SlidingProofs Proofs.SlidingComplete.
 From SV Require Import Spec.SlideSpec Proofs.TumblingSpecSound Proofs.SlidingSpecSound.
+From SV Require Import Proofs.SlidingKept Spec.SlideKeptSpec.
 
 (* every emitted interval is [s, s+size) with s a multiple of the slide, and holds only rows that
    were added with a timestamp inside it (slide dividing size or not, slide = size, slide > size) *)
@@ -60,6 +61,20 @@ Proof.
   exact (sliding_every_cover_delivered c Hs Hz h1 id ts now h2 s1 tr1 sa ea s tr a k).
 Qed.
 Print Assumptions C08_every_covering_interval_delivered.
+
+(* a row ingested WHILE a watermark is being handled (after a firing, the window lock being released around the callback)
+   with a timestamp inside the current slot is buffered whether or not it lies behind the watermark, and the very next
+   firing step - which decides from the live buffer - delivers an interval: the earliest covering interval [a, a+size)
+   of that row on the slot grid, if the watermark has passed its end, or an earlier one; the watermark stays pending, so
+   the pass goes on (with C08_no_premature_eviction and C08_increasing_once: up to [a, a+size) itself) *)
+Theorem C08_row_ingested_during_pass_forces_firing : forall c s wmk id ts now s1 bs a,
+  s_pend s = Some wmk -> s_init s = true -> sinwin c (s_slot s) ts = true ->
+  sadd_core c id ts now s = (s1, bs) ->
+  first_win c (s_slot s) ts = Some a -> a + ssize c <= wmk ->
+  In (id, ts) (s_data s1) /\
+  exists b, snd (sfire_step c s1) = [EvBatch b] /\ b_start b <= a /\ b_end b <= wmk /\ s_pend (fst (sfire_step c s1)) = Some wmk.
+Proof. exact sliding_row_during_pass_forces_firing. Qed.
+Print Assumptions C08_row_ingested_during_pass_forces_firing.
 
 (* delivery liveness across a channel overflow (see Spec/QuietSpec.v): after "channel empty, tick, drained again" with no
    Add in between, the last watermark received is >= (largest sane timestamp) - ooo on every trace *)
@@ -123,4 +138,22 @@ Example C08_late_example :
     {| b_start := 1015; b_end := 1025; b_rows := [(2, 1017); (4, 1016)]; b_late := true |} ]
   /\ chk_C08 ex_scfg_late 0 (snd (srun ex_scfg_late sst0 ex_late_hist)) = None
   /\ chk_C08 ex_scfg_late 0 (removelast (removelast (snd (srun ex_scfg_late sst0 ex_late_hist))) ++ [EvD0]) = Some SLateUpdateMissing.
+Proof. vm_compute. repeat split. Qed.
+
+(* non-vacuity of the clause chk_C08_kept (Spec/SlideKeptSpec.v): size 10, slide 5, ooo 0; the watermark 1031 passes five
+   slides; row 3 (1012) is ingested after the firing of [1000,1010), inside the current slot [1005,1015) and behind the
+   watermark; the model delivers [1005,1015) and [1010,1020) with it and the clause accepts the trace; the same trace
+   without those two firings is rejected *)
+Definition ex_scfg_kept : scfg := {| ssize := 10; sslide := 5; sooo := 0; slateness := 0 |}.
+Definition ex_kept_hist : list op :=
+  [Add 1 1001 0; DeliverBegin; FireStep; Add 2 1031 0; DeliverBegin; FireStep; Add 3 1012 0; FireStep; FireStep; FireStep].
+Example C08_kept_example :
+  batches (snd (srun ex_scfg_kept sst0 ex_kept_hist)) =
+  [ {| b_start := 1000; b_end := 1010; b_rows := [(1, 1001)]; b_late := false |};
+    {| b_start := 1005; b_end := 1015; b_rows := [(3, 1012)]; b_late := false |};
+    {| b_start := 1010; b_end := 1020; b_rows := [(3, 1012)]; b_late := false |} ]
+  /\ chk_C08_kept ex_scfg_kept 0 (snd (srun ex_scfg_kept sst0 ex_kept_hist)) = None
+  /\ chk_C08_kept ex_scfg_kept 0
+       (filter (fun e => match e with EvBatch b => b_start b =? 1000 | _ => true end) (snd (srun ex_scfg_kept sst0 ex_kept_hist)))
+     = Some ((3, 1012), 1010).
 Proof. vm_compute. repeat split. Qed.
